@@ -87,6 +87,15 @@ def run_c12(tier, seed):
     chk.add_tlc(ora, "Ora_Reflect[%d descriptions]" % n)
     for v in sorted(ora.verdicts, key=lambda v: v["id"]):
         cases.append({"text": v["text"], "reflect": v["reflect"], "mode": "T"})
+    # the same descriptions with other CONTENTS in one string literal (quotes, apostrophes, backslashes, blanks at its ends)
+    from .chk_syntax import string_twin
+    twins = []
+    for ci, c in enumerate(cases):
+        if ci % 3 == 0:
+            tw = string_twin(c["text"], c["reflect"], ci)
+            if tw:
+                twins.append({"text": tw[0], "reflect": tw[1], "mode": c["mode"] + "-string-contents"})
+    cases = cases + twins
     events, meta = [], {}
     for ci, c in enumerate(cases):
         chk.count(1, traces=1)
